@@ -584,6 +584,7 @@ def _one_layer_method(ctx: Ctx, c: ClassInfo, obj: ObjV, st0: State, meth: str, 
 QUERIES = "cirkit.backend.torch.queries"
 CIRCUIT = "cirkit.backend.torch.circuits.TorchCircuit"
 DC, BM, NV = Dim.sym("Dc"), Dim.sym("Bm"), Dim.sym("Nv")
+MAXV = Dim.sym("nn:maxvar[Dc]")  # the largest variable id of the abstract circuit scope (tensor_ops: max(ScopeV))
 
 
 def _abstract_query(ctx: Ctx, st: State, qcls: str) -> ObjV:
@@ -600,7 +601,7 @@ def _abstract_query(ctx: Ctx, st: State, qcls: str) -> ObjV:
 
 def query_contracts(ctx: Ctx, which: set[str]) -> list[Ob]:
     """R4q: the per-layer functions of the queries keep the layer contracts:
-    SamplingQuery._pad_samples((F, Ko, N), scope_idx (F, 1)) -> (F, Ko, N, |scope|);
+    SamplingQuery._pad_samples((F, Ko, N), scope_idx (F, 1)) -> (F, Ko, N, max(scope) + 1);
     IntegrateQuery._layer_fn(layer, x (F, B, D), mask (1 | B, Nv)) -> (F, B, Ko) for every input layer."""
     repo = ctx.repo
     obs: list[Ob] = []
@@ -614,13 +615,16 @@ def query_contracts(ctx: Ctx, which: set[str]) -> list[Ob]:
             if not res:
                 obs.append(unres("R4q", fi.qualname, "pad", "every path raises", fi.loc))
             for rv, s2 in res:
-                want = s2.norm_shape((F, KO, N, DC))
+                # the variable axis is addressed by variable id (scope_idx holds ids), as the D axis of
+                # the circuit input is: it has max(scope) + 1 columns.  len(scope) columns are too few
+                # for every scope that is not 0..n-1 (a marginalised / conditioned circuit): D30
+                want = s2.norm_shape((F, KO, N, MAXV + 1))
                 if not isinstance(rv, TensorV):
                     obs.append(unres("R4q", fi.qualname, "pad", f"result not resolved: {_fmt(rv, s2)}", fi.loc))
                 elif s2.norm_shape(rv.shape) == want:
                     obs.append(ok("R4q", fi.qualname, "pad", fmt_shape(want), fi.loc))
                 else:
-                    obs.append(viol("R4q", fi.qualname, "pad", f"returns {fmt_shape(s2.norm_shape(rv.shape))}, the sampling chain expects (F, Ko, N, |scope|) = {fmt_shape(want)}", fi.loc))
+                    obs.append(viol("R4q", fi.qualname, "pad", f"returns {fmt_shape(s2.norm_shape(rv.shape))}, the sampling chain expects (F, Ko, N, max(scope) + 1) = {fmt_shape(want)}: the last axis is indexed by the variable ids in scope_idx, and a scope need not be 0..n-1", fi.loc))
         except ShapeError as e:
             obs.append(viol("R4q", fi.qualname, "pad", f"{e.msg} [{e.where}]", fi.loc))
         except (PathLimit, RecursionError):
